@@ -20,6 +20,7 @@ import common
 COEF = {"t": 1024.0, "D": 8192.0}
 PARTNER_COEF = 128.0
 MOTION_COEF = {"t": 64.0, "D": 8.0}
+MOTION_COEF_B = {"t": 4.0, "D": 32.0}   # shift of the second factor of a translated ProductDomain
 SPAN = 2.0
 TOL = 0.05
 CALL_BUDGET_S = 20
@@ -111,6 +112,12 @@ def build_dom(tp, torch, d):
         dom = a + b if k == "U" else (a - b if k == "-" else a & b)
     elif k == "X":
         dom = build_dom(tp, torch, d["a"]) * build_dom(tp, torch, d["b"])
+    elif k == "Tr" and d["d"]["k"] == "X":
+        # Translate of a (dependent) ProductDomain: one shift component per variable of the product
+        inner = build_dom(tp, torch, d["d"])
+        comps = [" + ".join(f"{d['coefv'][v][w]!r}*{w}" for w in d["deps"]) for v in dvars(d["d"])]
+        f = eval(_fn_src(f"torch.cat([{', '.join(comps)}], dim=1)", d["deps"]), {"torch": torch})
+        dom = tp.domains.Translate(inner, f)
     elif k == "Tr":
         inner = build_dom(tp, torch, d["d"])
         dim = 2 if first_prim(d)["k"] == "C" else 1
@@ -317,6 +324,17 @@ def cell_verdict(d, value, env):
     return own, moves, x - lo
 
 
+def pre_env(node, env):
+    """values of the row with the variables of a translated ProductDomain moved back (pre-image)"""
+    if "pre" not in node:
+        return env
+    e = dict(env)
+    for v, cm in node["pre"]:
+        if v in e:
+            e[v] = env[v] - sum(cm[w] * env[w] for w in node["deps"])
+    return e
+
+
 def decode(case, out_vars, dims, tensor, params_rows):
     """canonical rows of an implementation output"""
     s = case["s"]
@@ -350,7 +368,7 @@ def decode(case, out_vars, dims, tensor, params_rows):
                         txt = f"{v}:D{lf['id']}#{jj}"
                         break
                     continue
-                own, moves, rel = cell_verdict(node, vals[v], env)
+                own, moves, rel = cell_verdict(node, vals[v], pre_env(node, env))
                 if own:
                     txt = cell_text(v, lf, node, True, moves, rel)
                     break
@@ -363,13 +381,13 @@ def decode(case, out_vars, dims, tensor, params_rows):
                             continue
                         for prow in params_rows:
                             env2 = dict(env, **dict(zip(pvars, prow)))
-                            if cell_verdict(node2, vals[v], env2)[0]:
+                            if cell_verdict(node2, vals[v], pre_env(node2, env2))[0]:
                                 kind, lf, node = kind2, lf2, node2
                                 break
                         else:
                             continue
                         break
-                    _, moves, rel = cell_verdict(node, vals[v], env)
+                    _, moves, rel = cell_verdict(node, vals[v], pre_env(node, env))
                     txt = cell_text(v, lf, node, False, moves, None)
                 else:
                     txt = f"{v}:?"
@@ -386,6 +404,11 @@ def dom_factors(d):
     """the non-product nodes of a domain, one per variable"""
     if d["k"] == "X":
         return dom_factors(d["a"]) + dom_factors(d["b"])
+    if d["k"] == "Tr" and d["d"]["k"] == "X":
+        # every factor is moved by its own component; the first factor was evaluated at the UNMOVED partner point
+        pre = [(v, d["coefv"][v]) for v in dvars(d["d"])]
+        return [dict(k="Tr", d=f, id=d["id"], deps=d["deps"], coef=d["coefv"][first_prim(f)["v"]], pre=pre)
+                for f in dom_factors(d["d"])]
     return [d]
 
 
@@ -638,6 +661,11 @@ class Gen:
                 d["coef"] = dict(d["coef"], **{w: PARTNER_COEF})
             d = dict(k="X", a=d, b=bdom)
             filt = False
+            ext = [x for x in avail if x in COEF]
+            if ext and rng.random() < 0.35:
+                mdeps = [x for x in ext if rng.random() < 0.7] or ext[:1]
+                d = dict(k="Tr", d=d, id=self.new_id(), deps=mdeps, coef={},
+                         coefv={v: {x: MOTION_COEF[x] for x in mdeps}, w: {x: MOTION_COEF_B[x] for x in mdeps}})
         n = n or rng.choice([1, 1, 2, 2, 3, 4, 5, 6, 9, 17])
         if filt:
             n = min(n, 6)
@@ -902,7 +930,7 @@ def histogram(rep, case):
         return max(walk(x["a"], depth + 1), walk(x["b"], depth + 1))
 
     def dwalk(d):
-        rep.count("dom:" + d["k"] + (".boundary" if d.get("bd") else ""))
+        rep.count("dom:" + d["k"] + (".boundary" if d.get("bd") else "") + ("(ProductDomain)" if d["k"] == "Tr" and d["d"]["k"] == "X" else ""))
         if any(w not in COEF for w in d.get("deps", [])):
             rep.count("dependency on a partner variable")
         for x in ("a", "b", "d"):
